@@ -11,6 +11,7 @@ import (
 	"golang.org/x/tools/go/ssa"
 
 	"waspcheck/internal/core"
+	"waspcheck/internal/report"
 )
 
 func init() { register("C19", checkC19) }
@@ -726,6 +727,14 @@ func (c *Ctx) ruleRetainedWildcardParent(id string) {
 			match = head
 		}
 	}
+	if match == nil && len(enums) > 0 {
+		// not a recursive descent: the match may walk the trie level by level, keeping the nodes reached so far in a
+		// frontier slice (level := []*Node{n}; for … { token := next level; if token == "#" { for each node of level:
+		// enumerate from node }; level = children selected by token })
+		if c.worklistWildcardParent(ru, pkg, isNode, enums) {
+			return
+		}
+	}
 	if !ru.Anchor(match != nil, "the topic-guided recursive match of topics.Node that tests for '#'") || !ru.Anchor(len(enums) > 0, "a subtree enumeration of topics.Node") {
 		return
 	}
@@ -785,6 +794,218 @@ func (c *Ctx) ruleRetainedWildcardParent(id string) {
 		}
 	}
 	ru.Check(bad == "" && n > 0, "'#' arm of "+c.fname(match), c.whereF(match), fmt.Sprintf("%d path(s) under '#', each enumerates the subtree rooted at the current node", n), bad+map[bool]string{true: "", false: "no path decides token == '#'"}[n > 0 || bad != ""])
+}
+
+// worklistWildcardParent decides C07-R7 for a level-by-level match: under token == '#' the subtree enumeration is
+// called on the nodes of the current frontier themselves (elements of the slice that the loop over the filter's levels
+// carries from one iteration to the next, and that starts as the slice holding the receiver alone), not on nodes read
+// out of a children map in that iteration. Returns false when no such routine is found (the caller reports the anchor).
+func (c *Ctx) worklistWildcardParent(ru *report.Rule, pkg string, isNode func(types.Type) bool, enums map[*ssa.Function]bool) bool {
+	entry := c.implOf(ru, "topics", "Store", "Match")
+	if entry == nil {
+		return false
+	}
+	var wl *ssa.Function
+	var nextCall *core.Call
+	for _, g := range c.reachInPkg(entry, entry.Package()) {
+		if g.Signature.Recv() == nil || !isNode(g.Signature.Recv().Type()) {
+			continue
+		}
+		wild := false
+		var nx *core.Call
+		loops := core.Loops(g)
+		for _, cl := range core.CallsIn(g) {
+			if cl.Obj != nil && cl.Obj.Name() == "Next" && cl.Obj.Pkg() != nil && strings.HasSuffix(cl.Obj.Pkg().Path(), "/format") && core.InnermostLoop(loops, cl.Instr.Block()) != nil {
+				nx = cl
+			}
+		}
+		for _, b := range g.Blocks {
+			for _, in := range b.Instrs {
+				if bo, ok := in.(*ssa.BinOp); ok && isWildcardTest(bo) {
+					wild = true
+				}
+			}
+		}
+		if nx != nil && wild {
+			wl, nextCall = g, nx
+		}
+	}
+	if wl == nil {
+		return false
+	}
+	c.R.Fn(c.fname(wl))
+	loops := core.Loops(wl)
+	// the loop over the filter's levels: the outermost loop that holds the Next call
+	var outer *core.Loop
+	for _, l := range loops {
+		if l.Blocks[nextCall.Instr.Block()] && (outer == nil || len(l.Blocks) > len(outer.Blocks)) {
+			outer = l
+		}
+	}
+	var rooted func(g *ssa.Function, depth int) bool
+	rooted = func(g *ssa.Function, depth int) bool {
+		if g == nil || len(g.Params) == 0 {
+			return false
+		}
+		if enums[g] {
+			return true
+		}
+		if depth == 0 {
+			return false
+		}
+		for _, in := range core.CallsIn(g) {
+			if in.Static != nil && in.Static != g && len(in.Common.Args) > 0 && core.Strip(in.Common.Args[0]) == ssa.Value(g.Params[0]) && rooted(in.Static, depth-1) {
+				return true
+			}
+		}
+		return false
+	}
+	// v is an element of the frontier carried by the outer loop (no children map is read on the way)
+	var frontier *ssa.Phi
+	var fromFrontier func(v ssa.Value, depth int) bool
+	fromFrontier = func(v ssa.Value, depth int) bool {
+		if depth > 12 {
+			return false
+		}
+		switch x := v.(type) {
+		case *ssa.UnOp:
+			if x.Op != token.MUL {
+				return false
+			}
+			return fromFrontier(x.X, depth+1)
+		case *ssa.IndexAddr:
+			return fromFrontier(x.X, depth+1)
+		case *ssa.Alloc:
+			if sv := core.CellValue(x); sv != nil {
+				return fromFrontier(sv, depth+1)
+			}
+			return false
+		case *ssa.Phi:
+			if x.Block() == outer.Header {
+				if sl, ok := x.Type().Underlying().(*types.Slice); ok && isNode(sl.Elem()) {
+					frontier = x
+					return true
+				}
+				return false
+			}
+			for _, e := range x.Edges {
+				if e != ssa.Value(x) && !fromFrontier(e, depth+1) {
+					return false
+				}
+			}
+			return len(x.Edges) > 0
+		}
+		return false
+	}
+	bad, n := "", 0
+	for _, cl := range core.CallsIn(wl) {
+		if cl.Static == nil || len(cl.Common.Args) == 0 || !rooted(cl.Static, 3) {
+			continue
+		}
+		underWild := false
+		for _, cc := range controllingConds(cl.Instr.Block(), nil) {
+			if bo, ok := cc.cond.(*ssa.BinOp); ok && isWildcardTest(bo) && cc.pol == (bo.Op == token.EQL) {
+				underWild = true
+			}
+		}
+		if !underWild {
+			continue
+		}
+		n++
+		if !fromFrontier(cl.Common.Args[0], 0) {
+			bad = "under '#' the retained messages are not enumerated from the nodes of the current level themselves (" + c.whereI(cl.Instr) + "): the message retained on the parent level of the filter (home for home/#) is not replayed"
+		}
+	}
+	if bad == "" && frontier != nil {
+		// the frontier starts as the slice that holds the receiver alone
+		startsAtRecv := false
+		for i, e := range frontier.Edges {
+			if outer.Blocks[frontier.Block().Preds[i]] {
+				continue
+			}
+			{
+				// []*Node{n}: a slice of an array literal
+				if sl, isSl := e.(*ssa.Slice); isSl {
+					if arr, isAl := sl.X.(*ssa.Alloc); isAl && arr.Referrers() != nil {
+						for _, r := range *arr.Referrers() {
+							if ia, isIA := r.(*ssa.IndexAddr); isIA && ia.Referrers() != nil {
+								for _, rr := range *ia.Referrers() {
+									if st, isSt := rr.(*ssa.Store); isSt && core.Strip(st.Val) == ssa.Value(wl.Params[0]) {
+										startsAtRecv = true
+									}
+								}
+							}
+						}
+					}
+				}
+			}
+		}
+		if !startsAtRecv {
+			bad = "the frontier of the level-by-level match does not start as the slice holding the node the match was called on"
+		}
+		// the next level is collected in storage of its own: a slice that re-uses the backing array of the level still
+		// being read (next := level[:0]) overwrites nodes that have not been visited yet
+		seen := map[ssa.Value]bool{}
+		var shares func(v ssa.Value, bind map[*ssa.Parameter]ssa.Value, depth int) bool
+		shares = func(v ssa.Value, bind map[*ssa.Parameter]ssa.Value, depth int) bool {
+			if v == nil || depth > 14 || seen[v] {
+				return false
+			}
+			seen[v] = true
+			switch x := v.(type) {
+			case *ssa.Phi:
+				if x == frontier {
+					return true
+				}
+				for _, e := range x.Edges {
+					if shares(e, bind, depth+1) {
+						return true
+					}
+				}
+			case *ssa.Slice:
+				return shares(x.X, bind, depth+1)
+			case *ssa.UnOp:
+				if x.Op == token.MUL {
+					if al, ok := x.X.(*ssa.Alloc); ok {
+						for _, st := range allStoresTo(al) {
+							if shares(st.Val, bind, depth+1) {
+								return true
+							}
+						}
+					}
+				}
+			case *ssa.Parameter:
+				if a, ok := bind[x]; ok {
+					return shares(a, nil, depth+1)
+				}
+			case *ssa.Call:
+				if b, isB := x.Call.Value.(*ssa.Builtin); isB && b.Name() == "append" {
+					return shares(x.Call.Args[0], bind, depth+1)
+				}
+				if g := x.Call.StaticCallee(); g != nil && len(g.Blocks) > 0 && g.Pkg == wl.Pkg {
+					nb := map[*ssa.Parameter]ssa.Value{}
+					for i, prm := range g.Params {
+						if i < len(x.Call.Args) {
+							nb[prm] = x.Call.Args[i]
+						}
+					}
+					for _, rv := range returnValues(g) {
+						if shares(rv, nb, depth+1) {
+							return true
+						}
+					}
+				}
+			}
+			return false
+		}
+		for i, e := range frontier.Edges {
+			if outer.Blocks[frontier.Block().Preds[i]] && shares(e, nil, 0) {
+				bad = "the next level is collected in a slice that shares the backing array of the level still being read (a re-slice of it): as soon as a node has two children the nodes of the current level that have not been visited yet are overwritten, and the retained messages below them are not replayed"
+			}
+		}
+	}
+	ru.Check(bad == "" && n > 0, "'#' arm of "+c.fname(wl), c.whereF(wl), fmt.Sprintf("%d enumeration(s) under '#', each called on the nodes of the current level", n), bad+map[bool]string{true: "", false: "no subtree enumeration is made under token == '#'"}[n > 0 || bad != ""])
+	return true
 }
 
 // isWildcardTest: a (dis)equality between something and the multi-level wildcard constant "#".
